@@ -9,6 +9,7 @@ data. The normalised equation text is executed the same way, and a bit-exact num
 float data vectors.
 """
 import ast
+import keyword
 import re
 
 import numpy as np
@@ -91,10 +92,14 @@ def equation_paths(symbols, names, span_len, t):
 def numeric_compare(p, Model, names, L, t, vec, span=None, label_pos=None):
     """Bit-exact: real _evaluate on float data vs CPython evaluation of the reference trees."""
     rng = np.random.RandomState(1234 + vec)
-    data = {n: (rng.uniform(0.2, 1.9, L) * (1 if vec == 0 else rng.choice([-1.0, 1.0], L))) for n in names}
+    data = {n: (rng.uniform(0.2, 1.9, L) * (1 if vec in (0, 2) else rng.choice([-1.0, 1.0], L))) for n in names}
     m = Model(range(L) if span is None else span)
     for n in names:
-        m[n] = data[n].copy()
+        if vec == 2:
+            m[n] = list(range(L))      # a whole-series assignment of an all-integer list ...
+            m[n][:] = data[n]          # ... then the float data, written in place: the series must still be a float series
+        else:
+            m[n] = data[n].copy()
     cells = {(n, i): np.float64(data[n][i]) for n in names for i in range(L)}
     exc_m = exc_r = None
     with np.errstate(all='ignore'):
@@ -166,7 +171,7 @@ def check_program(p):
             out.append(('semantics:' + fk, _short(first_b), _short(first_a), 'one evaluation pass differs from the equations as written (t=%d)' % t))
             break
         wrote = wrote or any(w for _, w in a if isinstance(w, tuple) and w and w[0] != 'EXC')
-        if any(n in ('t', 'self', 'np') for n in names) or "self['" in script:
+        if any(n in ('t', 'self', 'np') or keyword.iskeyword(n) for n in names) or "self['" in script:
             c = None  # the equation text 't[t]' / 'self[t]' cannot be bound by the harness: only the code is judged
         else:
             try:
@@ -178,7 +183,7 @@ def check_program(p):
             break
     if not out:
         t = lags
-        for vec in (0, 1):
+        for vec in (0, 1, 2):
             d = numeric_compare(p, Model, list(Model.NAMES), L, t, vec, span, label_pos)
             if d is not None:
                 out.append(('numeric:' + fk, d[1], d[2], 'bit-exact numeric cross-check differs (%s)' % d[0]))
